@@ -71,10 +71,10 @@ EPS = 0.0002
 class Rng:
     """Replace numpy.random entry points: record arguments, return injected values."""
 
-    NAMES = ("multivariate_normal", "normal", "choice", "random", "multinomial")
+    NAMES = ("multivariate_normal", "normal", "choice", "random", "multinomial", "poisson")
 
-    def __init__(self, mvn=None, normal=None, choice=None, random=0.5, multinomial=None):
-        self.inj = dict(multivariate_normal=mvn, normal=normal, choice=choice, random=random, multinomial=multinomial)
+    def __init__(self, mvn=None, normal=None, choice=None, random=0.5, multinomial=None, poisson=None):
+        self.inj = dict(multivariate_normal=mvn, normal=normal, choice=choice, random=random, multinomial=multinomial, poisson=poisson)
         self.calls = []
         self.saved = {}
 
@@ -841,9 +841,24 @@ def gen_fock_case(rng, max_n=3):
     if full_perm:
         n = max_n
     t = rng.choice([2, 3, 3, 4]) if n >= 3 else rng.choice([3, 4, 5])
-    modes = rng.sample(range(n), n if full_perm else rng.randint(1, n))
-    return dict(backend="fock", n=n, deleted=[], live=list(range(n)), prefix=fock_prefix(rng, n, t=t), hbar=2.0,
+    deleted = []
+    ntot = n
+    if rng.random() < 0.25:
+        ntot = n + 1
+        deleted = [rng.randrange(ntot)]
+        if ntot >= 4:
+            t = min(t, 3)
+    live = [m for m in range(ntot) if m not in deleted]
+    modes = rng.sample(live, n if full_perm else rng.randint(1, n))
+    return dict(backend="fock", n=ntot, deleted=deleted, live=live, prefix=fock_prefix(rng, ntot, t=t), hbar=2.0,
                 backend_options={"cutoff_dim": t}, meas=dict(kind="fock", modes=modes), u=rng.random())
+
+
+def fock_axes(spec):
+    """(number of axes of the Fock-backend tensor, axis of every listed mode): deleted modes are traced out of the
+    tensor, so mode m sits on axis = its rank among the live modes"""
+    live = spec.get("live") or list(range(spec["n"]))
+    return len(live), [live.index(m) for m in spec["meas"]["modes"]]
 
 
 def joint_probs(pre):
@@ -881,10 +896,12 @@ def corr_fock(ctx):
             continue
         P = joint_probs(out["pre"])
         t = spec["backend_options"]["cutoff_dim"]
-        terms.append("x_fock %d%%nat %d%%nat %s %s %d%%nat" % (spec["n"], t, coq.coq_list(spec["meas"]["modes"], str), fvec(P), rec["flat"]))
+        nl, axes = fock_axes(spec)
+        terms.append("x_fock %d%%nat %d%%nat %s %s %d%%nat" % (nl, t, coq.coq_list(axes, str), fvec(P), rec["flat"]))
         cases.append((spec, out, rec, P))
         ms = spec["meas"]["modes"]
-        ctx.case(dict(kind="fock", n=spec["n"], cutoff=t, modes=ms), nontrivial=spec["n"] >= 2 and ms != list(range(len(ms))), bucket="fock:n%d:m%d" % (spec["n"], len(ms)))
+        ctx.case(dict(kind="fock", n=spec["n"], cutoff=t, modes=ms, deleted=spec["deleted"]), nontrivial=spec["n"] >= 2 and ms != list(range(len(ms))),
+                 bucket="fock:n%d:m%d%s" % (len(spec["live"]), len(ms), ":del" if spec["deleted"] else ""))
     vals = eval_terms(ctx, "cases_fock", terms, chunk=100)
     if vals is None:
         return
@@ -941,7 +958,7 @@ def post_rho(post, n):
 
 
 def predicate_fock(spec, out, rec=None):
-    n = spec["n"]
+    n, axes = fock_axes(spec)
     t = spec["backend_options"]["cutoff_dim"]
     modes = spec["meas"]["modes"]
     smp = out["ret"]
@@ -960,11 +977,11 @@ def predicate_fock(spec, out, rec=None):
     sel = spec["meas"].get("select")
     if sel is not None and outcome != list(sel):
         return "select-not-reported"
-    prob, rho_exp = fock_oracle(out["pre"], n, t, modes, outcome)
+    prob, rho_exp = fock_oracle(out["pre"], n, t, axes, outcome)
     if rec is not None and "p" in rec:
         # Born: the vector handed to choice is the marginal over the measured modes in ascending order
         P = joint_probs(out["pre"]).reshape([t] * n)
-        rest = tuple(m for m in range(n) if m not in modes)
+        rest = tuple(m for m in range(n) if m not in axes)
         marg = P.sum(axis=rest) if rest else P
         marg = marg.ravel()
         # the code zeroes entries below 1e-8 (absolute) before normalising: on a heavily truncated state (trace << 1)
@@ -1117,7 +1134,8 @@ def check_fock_family(spec):
     f2, out2, _ = check_fock(sp2)
     fails += f2
     if out2 is not None:
-        if not np.allclose(post_rho(out["post"], sp["n"]), post_rho(out2["post"], sp["n"]), atol=1e-9):
+        nl = fock_axes(sp)[0]
+        if not np.allclose(post_rho(out["post"], nl), post_rho(out2["post"], nl), atol=1e-9):
             fails.append(("sample-vs-select:fock:fock", "state after measuring %s on %s differs from the state after post-selecting it" % (outcome, sp["meas"]["modes"])))
     return fails
 
@@ -1251,65 +1269,307 @@ def mix_moments(w, mu, cv):
 
 
 def gen_threshold_case(rng):
-    spec = gen_state_spec(rng, "bosonic", max_n=3)
-    k = rng.choice(spec["live"])
-    spec["meas"] = dict(kind="thr", modes=[k])
-    spec["outcome"] = rng.choice([0, 1])
+    """bosonic threshold detection of 1..all live modes (as listed, any order), on a Gaussian pre-state (optionally
+    with a deleted mode) or on a many-peak cat state; the outcome of every detector is injected"""
+    if rng.random() < 0.3:
+        n = rng.choice([2, 2, 3])
+        prefix = [["Catstate", [round(rng.uniform(0.5, 1.0), 3), 0.0, rng.choice([0, 1]), rng.choice(["complex", "real"])], [0], False]]
+        if rng.random() < 0.5:
+            prefix.append(["Dgate", [round(rng.uniform(0.1, 0.4), 3), round(rng.uniform(-2, 2), 3)], [0], False])
+        for i in range(1, n):
+            prefix.append(["Squeezed", [round(rng.uniform(0.1, 0.4), 3), round(rng.uniform(-1, 1), 3)], [i], False])
+        for i in range(n - 1):
+            prefix.append(["BSgate", [round(rng.uniform(0.3, 1.2), 3), round(rng.uniform(-1, 1), 3)], [i, i + 1], False])
+        spec = dict(backend="bosonic", n=n, deleted=[], live=list(range(n)), prefix=prefix, hbar=rng.choice(HBARS), cat=True)
+    else:
+        spec = gen_state_spec(rng, "bosonic", max_n=3)
+    live = spec["live"]
+    modes = rng.sample(live, rng.choice([1, 1, min(2, len(live)), len(live)]))
+    spec["meas"] = dict(kind="thr", modes=modes)
+    spec["outcomes"] = [rng.choice([0, 1]) for _ in modes]
+    spec["xi_seed"] = rng.randrange(10 ** 6)
     return spec
+
+
+def textbook_c(r, V, k, sig, m):
+    """`textbook` for peaks with complex means (no conjugation anywhere, as for Wigner-function peaks)"""
+    d = len(r)
+    B_idx = [2 * k, 2 * k + 1]
+    A_idx = [i for i in range(d) if i not in B_idx]
+    VA, VAB, VB = V[np.ix_(A_idx, A_idx)], V[np.ix_(A_idx, B_idx)], V[np.ix_(B_idx, B_idx)]
+    W = np.linalg.inv(VB + sig)
+    Vn = np.eye(d, dtype=complex)
+    Vn[np.ix_(A_idx, A_idx)] = VA - VAB @ W @ VAB.T
+    rn = np.zeros(d, dtype=complex)
+    rn[A_idx] = r[A_idx] + VAB @ W @ (np.asarray(m) - r[B_idx])
+    return rn, Vn
+
+
+def threshold_oracle(state, k, outcome):
+    """state = list of (weight, mean, cov) (hbar = 2 units, xpxp); threshold detector on mode k.
+    Returns (probability of no click, state after `outcome` with mode k reset to vacuum)."""
+    idx = [2 * k, 2 * k + 1]
+    proj, reset = [], []
+    p0 = 0.0
+    for w, r, V in state:
+        C = V[np.ix_(idx, idx)] + np.eye(2)
+        q = 2.0 / np.sqrt(np.linalg.det(C)) * np.exp(-0.5 * r[idx] @ np.linalg.inv(C) @ r[idx])
+        r0, V0 = textbook_c(r, V, k, np.eye(2), [0.0, 0.0])
+        proj.append((w * q, r0, V0))
+        p0 = p0 + w * q
+        rr, Vr = np.array(r, dtype=complex), np.array(V, dtype=complex)
+        rr[idx] = 0
+        Vr[idx, :] = 0
+        Vr[:, idx] = 0
+        Vr[idx, idx] = 1
+        reset.append((w, rr, Vr))
+    p0 = float(np.real(p0))
+    if outcome == 0:
+        return p0, [(w / p0, r, V) for w, r, V in proj]
+    return p0, [(w / (1 - p0), r, V) for w, r, V in reset] + [(-w / (1 - p0), r, V) for w, r, V in proj]
+
+
+def charfun(state, xi):
+    """Wigner characteristic function of a weighted sum of Gaussians at the phase-space vector xi"""
+    return sum(w * np.exp(1j * xi @ r - 0.5 * xi @ V @ xi) for w, r, V in state)
+
+
+def same_mixture(a, b, d, seed, tol=1e-7):
+    nr = np.random.RandomState(seed)
+    for _ in range(8):
+        xi = nr.normal(size=d) * 0.7
+        if abs(charfun(a, xi) - charfun(b, xi)) > tol:
+            return False
+    return abs(charfun(a, np.zeros(d)) - charfun(b, np.zeros(d))) <= tol
 
 
 def check_threshold(spec):
     fails = []
-    rec = {}
+    recs = []
+    todo = list(spec["outcomes"])
+
+    actual = []
 
     def choice(a, size=None, p=None, **kw):
-        rec["p"] = np.array(p, dtype=float)
-        rec["a"] = list(a)
-        return spec["outcome"]
+        pp = np.array(p, dtype=float)
+        recs.append((list(a), pp))
+        want = todo[min(len(recs) - 1, len(todo) - 1)]
+        # an outcome of (nearly) zero probability cannot be conditioned on: take the other one
+        o = want if len(pp) == 2 and pp[want] >= 0.02 else 1 - want
+        actual.append(o)
+        return o
     try:
         out = run_case(spec, inject=dict(choice=choice))
     except Exception as e:
         return [(raise_sig(spec, e), "MeasureThreshold raised %r" % (e,))]
     pre, post = out["pre"], out["post"]
-    r, V = state_of(pre, "bosonic")
-    k = spec["meas"]["modes"][0]
-    idx = [2 * k, 2 * k + 1]
-    d = len(r)
-    rest = [i for i in range(d) if i not in idx]
-    C = V[np.ix_(idx, idx)] + np.eye(2)
-    p0 = 2.0 / math.sqrt(np.linalg.det(C)) * math.exp(-0.5 * r[idx] @ np.linalg.inv(C) @ r[idx])
-    if rec.get("a") != [0, 1] or abs(rec["p"][0] - p0) > 1e-8 or abs(rec["p"][0] + rec["p"][1] - 1) > 1e-9:
-        fails.append(("born:bosonic:thr", "probabilities handed to choice %s, vacuum probability of the mode %.8f" % (rec.get("p"), p0)))
-    if out["samples"].shape != (1, 1) or int(out["samples"][0, 0]) != spec["outcome"]:
-        fails.append(("threshold:bosonic:sample-value", "reported %s for outcome %s" % (out["samples"].tolist(), spec["outcome"])))
-    w, mu, cv = post["weights"], post["means"], post["covs"]
-    tot, m1, m2 = mix_moments(w, mu, cv)
-    if abs(tot - 1) > 1e-8:
+    modes = spec["meas"]["modes"]
+    spec = dict(spec, outcomes=list(actual) + list(spec["outcomes"][len(actual):]))
+    state = [(complex(w), np.array(r, dtype=complex), np.array(V, dtype=complex)) for w, r, V in zip(pre["weights"], pre["means"], pre["covs"])]
+    d = len(state[0][1])
+    if len(recs) != len(modes):
+        fails.append(("threshold:bosonic:detector-count", "%d detector draws for modes %s" % (len(recs), modes)))
+        return fails
+    for j, (k, o) in enumerate(zip(modes, spec["outcomes"])):
+        p0, state = threshold_oracle(state, k, o)
+        a, p = recs[j]
+        if a != [0, 1] or abs(p[0] - p0) > 1e-7 or abs(p[0] + p[1] - 1) > 1e-9:
+            fails.append(("born:bosonic:thr", "detector %d (mode %d): probabilities handed to choice %s, no-click probability of the mode given the earlier outcomes %.8f" % (j, k, p, p0)))
+            return fails
+    order = sorted(range(len(modes)), key=lambda i: modes[i])
+    if out["samples"].shape != (1, len(modes)) or [int(x) for x in out["samples"][0]] != [spec["outcomes"][i] for i in order]:
+        fails.append(("threshold:bosonic:sample-value", "Result.samples %s for outcomes %s on modes %s (columns must be ascending by mode)" % (out["samples"].tolist(), spec["outcomes"], modes)))
+    for m, o in zip(modes, spec["outcomes"]):
+        v = out["regvals"].get(m)
+        if v is None or int(np.ravel(v)[0]) != o:
+            fails.append(("threshold:bosonic:regref-val", "q[%d].val = %s, outcome %s" % (m, v, o)))
+            break
+    got = [(complex(w), np.array(r, dtype=complex), np.array(V, dtype=complex)) for w, r, V in zip(post["weights"], post["means"], post["covs"])]
+    tot = charfun(got, np.zeros(d))
+    if abs(tot - 1) > 1e-7:
         fails.append(("threshold:bosonic:weights-not-normalised", "weights sum to %s" % tot))
-    # measured mode reset to vacuum in the mixture
-    if not (np.allclose(m1[idx], 0, atol=1e-8) and np.allclose(m2[np.ix_(idx, idx)], np.eye(2), atol=1e-8)):
-        fails.append(("threshold:bosonic:measured-mode-not-vacuum", "measured mode moments %s" % np.round(m2[np.ix_(idx, idx)], 5)))
-    r0, V0 = textbook(r, V, k, np.eye(2), [0.0, 0.0])   # projection on vacuum
-    M0 = V0 + np.outer(r0, r0)
-    if spec["outcome"] == 0:
-        if not (np.allclose(m1, r0, atol=1e-8) and np.allclose(m2, M0, atol=1e-8)):
-            fails.append(("threshold:bosonic:no-click-state", "state after outcome 0 is not the projection of the measured mode on vacuum"))
+    elif not same_mixture(got, state, d, spec.get("xi_seed", 1)):
+        # which clause? measured modes in vacuum, then the rest
+        _, m1, m2 = mix_moments(post["weights"], post["means"], post["covs"])
+        idx = [i for k in modes for i in (2 * k, 2 * k + 1)]
+        if not (np.allclose(m1[idx], 0, atol=1e-7) and np.allclose(m2[np.ix_(idx, idx)], np.eye(len(idx)), atol=1e-7)):
+            fails.append(("threshold:bosonic:measured-mode-not-vacuum", "measured modes %s are not left in vacuum" % modes))
+        else:
+            fails.append(("threshold:bosonic:%s-state" % ("click" if any(spec["outcomes"]) else "no-click"),
+                          "state after threshold outcomes %s on modes %s is not the conditional state (rho_A - p0 rho_A|0)/(1-p0) for a click, rho_A|0 for no click)" % (spec["outcomes"], modes)))
+    return fails
+
+
+# ---- dark counts ------------------------------------------------------------------------------------
+
+def gen_dark_case(rng):
+    n = rng.choice([1, 2, 3, 4, 11])
+    modes = rng.sample(range(n), rng.randint(1, min(n, 4)))
+    shots = rng.choice([1, 1, 2, 3])
+    backend = rng.choice(["gaussian", "fock"]) if n <= 4 else "gaussian"
+    if backend == "fock":
+        shots = 1
+    dc = [rng.choice([0.1, 0.5, 1.5, 2.0]) * (i + 1) for i in range(len(modes))]
+    short = rng.random() < 0.2 and len(modes) >= 2
+    scalar = (not short) and len(modes) == 1 and rng.random() < 0.5
+    return dict(n=n, modes=modes, shots=shots, backend=backend, dark_counts=dc[:1] if short else dc, malformed=short, scalar=scalar,
+                inc=[[rng.randrange(0, 4) for _ in modes] for _ in range(shots)])
+
+
+def check_dark_counts(case):
+    """MeasureFock(dark_counts=...): every listed mode gets Poisson(dark_counts[i]) extra counts, i = its position in
+    the listing; outcome = photon count + dark counts, reported per shot / ascending by mode"""
+    n, modes, shots = case["n"], case["modes"], case["shots"]
+    prog = sf.Program(n)
+    dc = case["dark_counts"][0] if case.get("scalar") else case["dark_counts"]
+    with prog.context as q:
+        ops.MeasureFock(dark_counts=dc) | tuple(q[m] for m in modes)
+    eng = sf.Engine(case["backend"], backend_options={"cutoff_dim": 3} if case["backend"] == "fock" else {})
+    base = np.array([[10 * (m + 1) + 100 * s_ for m in modes] for s_ in range(shots)])
+    eng.backend.measure_fock = lambda mm, shots=1, select=None, **kw: base.copy()
+    rec = {}
+
+    def poisson(lam=1.0, size=None):
+        rec["lam"] = np.array(lam, dtype=float)
+        rec["size"] = size
+        return np.array(case["inc"]) if size is not None and tuple(np.atleast_1d(size)) == base.shape else np.array(case["inc"][0])
+    rp = Rng(poisson=poisson)
+    try:
+        with rp:
+            res = eng.run(prog, shots=shots)
+    except ValueError as e:
+        if case["malformed"]:
+            return []
+        return [("dark-counts:raises:ValueError", "MeasureFock(dark_counts=%s) on modes %s raised %r" % (dc, modes, e))]
+    except Exception as e:
+        return [("dark-counts:raises:" + type(e).__name__, "MeasureFock(dark_counts=%s) on modes %s raised %r" % (dc, modes, e))]
+    if case["malformed"]:
+        return [("dark-counts:length-not-checked", "MeasureFock(dark_counts=%s) on %d modes did not raise" % (dc, len(modes)))]
+    fails = []
+    if "lam" not in rec:
+        return [("dark-counts:not-applied", "no Poisson draw for dark_counts=%s" % (dc,))]
+    lam = np.broadcast_to(rec["lam"], base.shape) if rec["lam"].ndim <= 2 else rec["lam"]
+    if lam.shape != base.shape or not np.allclose(lam, np.array(case["dark_counts"])[None, :]) or (rec["size"] is not None and tuple(np.atleast_1d(rec["size"])) != base.shape):
+        fails.append(("born:dark-counts:rates", "Poisson rates %s (size %s) for dark_counts=%s on modes %s as listed, %d shots" % (rec["lam"].tolist(), rec["size"], dc, modes, shots)))
+    order = sorted(range(len(modes)), key=lambda i: modes[i])
+    exp = [[int(base[s_][i] + case["inc"][s_][i]) for i in order] for s_ in range(shots)]
+    got = np.array(res.samples)
+    if got.shape != (shots, len(modes)) or got.astype(int).tolist() != exp:
+        fails.append(("dark-counts:samples", "Result.samples %s, expected photon counts + dark counts per shot, ascending by mode: %s" % (got.tolist(), exp)))
+    return fails
+
+
+# ---- time-domain programs: (shots, spatial modes, time bins) layout produced by LocalEngine._run_program ----
+
+def gen_tdm_case(rng):
+    two = rng.random() < 0.35
+    return dict(N=[1, 2] if two else rng.choice([2, 3]), T=rng.randint(3, 6), shots=rng.choice([1, 2, 3]), crop=(not two) and rng.random() < 0.5)
+
+
+def check_tdm_layout(case):
+    """every homodyne call of a TDM program returns its call number; sample [shot][spatial mode][time bin] must be
+    the number of the call made for that shot, bin and detector"""
+    N, T, shots = case["N"], case["T"], case["shots"]
+    nl = 1 if isinstance(N, int) else len(N)
+    prog = sf.TDMProgram(N=N)
+    args = [[0.1 * i for i in range(T)] for _ in range(2 * nl)]
+    with prog.context(*args) as (p, q):
+        if nl == 1:
+            ops.Sgate(0.4, 0) | q[N - 1]
+            ops.BSgate(p[0]) | (q[N - 2], q[N - 1])
+            ops.MeasureHomodyne(p[1]) | q[0]
+        else:
+            ops.Sgate(0.4, 0) | q[0]
+            ops.Sgate(0.4, 0) | q[2]
+            ops.BSgate(p[0]) | (q[1], q[2])
+            ops.BSgate(p[2]) | (q[0], q[1])
+            ops.MeasureHomodyne(p[1]) | q[0]
+            ops.MeasureHomodyne(p[3]) | q[1]
+    eng = sf.Engine("gaussian")
+    cnt = [0]
+
+    def stub(phi, mode, shots=1, select=None, **kw):
+        c = cnt[0]
+        cnt[0] += 1
+        return np.array([[float(c) + 100000.0 * s_] for s_ in range(shots)])
+    eng.backend.measure_homodyne = stub
+    try:
+        with hbar_set(2.0):
+            res = eng.run(prog, shots=shots, crop=case["crop"])
+        cv = int(prog.get_crop_value()) if case["crop"] else 0
+    except Exception as e:
+        return [("tdm-layout:raises:" + type(e).__name__, "TDM run raised %r" % (e,))]
+    exp = [[[float(s_ * T * nl + t * nl + j) for t in range(cv, T)] for j in range(nl)] for s_ in range(shots)]
+    got = np.array(res.samples)
+    fails = []
+    if got.shape != (shots, nl, T - cv) or got.tolist() != exp:
+        fails.append(("tdm-layout:samples", "TDM samples %s; expected [shot][spatial mode][time bin] = %s" % (got.tolist(), exp)))
+    sd = {int(k): np.array(v).tolist() for k, v in res.samples_dict.items()}
+    expd = {j: [exp[s_][j] for s_ in range(shots)] for j in range(nl)}
+    if sd != expd:
+        fails.append(("tdm-layout:samples_dict", "TDM samples_dict %s; expected %s" % (sd, expd)))
+    return fails
+
+
+# ---- bosonic multi-shot homodyne / heterodyne ---------------------------------------------------------
+
+def gen_multishot_case(rng):
+    spec = gen_dyne_case(rng, backend="bosonic", select=False)
+    spec["shots"] = rng.choice([2, 3, 4])
+    spec["draws"] = [[round(rng.gauss(0, 1.2), 4), round(rng.gauss(0, 1.2), 4)] for _ in range(spec["shots"])]
+    return spec
+
+
+def check_multishot(spec):
+    """bosonic backend, shots > 1: one row per shot, row s holds the s-th drawn value; every draw comes from the
+    same (pre-measurement) distribution; the state is conditioned on the first row (documented)"""
+    seq = list(spec["draws"])
+    calls = []
+
+    def mvn(mean, cov, *a, **kw):
+        calls.append((np.array(mean, dtype=float), np.array(cov, dtype=float)))
+        return np.array(seq[len(calls) - 1], dtype=float)
+    try:
+        out = run_case(spec, inject=dict(mvn=mvn, choice=np.array([0]), random=0.5))
+    except Exception as e:
+        return [(raise_sig(spec, e) + ":multishot", "measurement with shots=%d raised %r" % (spec["shots"], e))]
+    fails = []
+    shots = spec["shots"]
+    kind = spec["meas"]["kind"]
+    s = math.sqrt(spec["hbar"] / 2.0)
+    exp = [[d[0] * s] if kind == "hom" else [complex(d[0], d[1]) / 2.0] for d in seq]
+    got = out["samples"]
+    if got.shape != (shots, 1) or not np.allclose(got, np.array(exp), atol=1e-9):
+        fails.append(("multishot:bosonic:%s:samples" % kind, "Result.samples %s for the %d draws %s (one row per shot expected: %s)" % (got.tolist(), shots, seq, exp)))
+    if len(calls) != shots:
+        fails.append(("multishot:bosonic:%s:draw-count" % kind, "%d draws for %d shots" % (len(calls), shots)))
+    elif any(not (np.allclose(c[0], calls[0][0]) and np.allclose(c[1], calls[0][1])) for c in calls):
+        fails.append(("born:bosonic:%s:multishot" % kind, "the shots are not drawn from the same distribution"))
+    k = spec["meas"]["modes"][0]
+    v = out["regvals"].get(k)
+    if v is None or np.shape(np.ravel(v)) != (shots,) or not np.allclose(np.ravel(v), np.ravel(exp), atol=1e-9):
+        fails.append(("multishot:bosonic:%s:regref-val" % kind, "q[%d].val = %s" % (k, v)))
+    r, V = state_of(out["pre"], "bosonic")
+    if kind == "hom":
+        r2, V2 = rot_np(r, V, k, spec["meas"]["phi"])
+        sig = np.diag([EPS ** 2, 1 / EPS ** 2])
+        m = [seq[0][0], r2[2 * k + 1]]
+        tol = 5e-6
     else:
-        # p0 * rho_0 + (1 - p0) * rho_1 = pre-state on the unmeasured modes
-        Mpre = V + np.outer(r, r)
-        lhs1 = p0 * r0[rest] + (1 - p0) * m1[rest]
-        lhs2 = p0 * M0[np.ix_(rest, rest)] + (1 - p0) * m2[np.ix_(rest, rest)]
-        if rest and not (np.allclose(lhs1, r[rest], atol=1e-7) and np.allclose(lhs2, Mpre[np.ix_(rest, rest)], atol=1e-7)):
-            fails.append(("threshold:bosonic:click-state", "p0*rho_0 + (1-p0)*rho_1 does not give back the unmeasured modes' pre-measurement moments"))
+        r2, V2, sig, m, tol = r, V, np.eye(2), seq[0], 1e-8
+    rn, Vn = textbook(r2, V2, k, sig, m)
+    pm, pc = post_state(out, "bosonic")
+    if not (close(pm, rn, tol) and close(pc, Vn, tol)):
+        fails.append(("multishot:bosonic:%s:state" % kind, "state after %d shots is not the conditional state of the first reported outcome" % shots))
     return fails
 
 
 # ---- Gaussian backend photon counting / threshold: parameters handed to The Walrus; state update -----
 
 def gen_gfock_case(rng):
-    spec = gen_state_spec(rng, "gaussian", max_n=4, allow_del=False)
-    n = spec["n"]
-    modes = rng.sample(range(n), rng.randint(1, n))
+    spec = gen_state_spec(rng, "gaussian", max_n=4, allow_del=True)
+    live = spec["live"]
+    modes = rng.sample(live, rng.randint(1, len(live)))
     spec["meas"] = dict(kind=rng.choice(["fock", "thr"]), modes=modes)
     spec["shots"] = rng.choice([1, 1, 3])
     if rng.random() < 0.3:
@@ -1678,6 +1938,9 @@ def register_checks():
         "cat": check_cat,
         "all-measured": check_all_measured,
         "reject": check_reject,
+        "dark-counts": check_dark_counts,
+        "multishot": check_multishot,
+        "tdm-layout": check_tdm_layout,
     })
 
 
@@ -1805,7 +2068,13 @@ def search(ctx):
     run_stream(ctx, "all-measured", gen_all_measured, check_all_measured, ctx.budget(6, 40), lambda sp: False, lambda sp: "search:all-measured:" + sp["backend"])
     run_stream(ctx, "fock-family", gen_fock_case, check_fock_family, ctx.budget(80, 1500),
                lambda sp: sp["n"] >= 2 and sp["meas"]["modes"] != list(range(len(sp["meas"]["modes"]))), lambda sp: "search:fock:n%d" % sp["n"])
-    run_stream(ctx, "threshold", gen_threshold_case, check_threshold, ctx.budget(40, 800), nt_dyne, lambda sp: "search:threshold:%d" % sp["outcome"])
+    run_stream(ctx, "threshold", gen_threshold_case, check_threshold, ctx.budget(60, 1000), nt_dyne,
+               lambda sp: "search:threshold:%s:m%d%s" % ("cat" if sp.get("cat") else "gauss", len(sp["meas"]["modes"]), ":del" if sp["deleted"] else ""))
+    run_stream(ctx, "dark-counts", gen_dark_case, check_dark_counts, ctx.budget(30, 400), lambda c: c["modes"] != sorted(c["modes"]) or c["modes"][0] != 0,
+               lambda c: "search:dark-counts:%s:shots%d%s" % (c["backend"], c["shots"], ":malformed" if c["malformed"] else ""))
+    run_stream(ctx, "tdm-layout", gen_tdm_case, check_tdm_layout, ctx.budget(12, 150), lambda c: c["shots"] > 1 or not isinstance(c["N"], int),
+               lambda c: "search:tdm-layout:%s:shots%d%s" % ("2loops" if not isinstance(c["N"], int) else "1loop", c["shots"], ":crop" if c["crop"] else ""))
+    run_stream(ctx, "multishot", gen_multishot_case, check_multishot, ctx.budget(20, 300), nt_dyne, lambda sp: "search:multishot:%s:shots%d" % (sp["meas"]["kind"], sp["shots"]))
     run_stream(ctx, "gaussian-fock", gen_gfock_case, check_gaussian_fock, ctx.budget(40, 600),
                lambda sp: sp["meas"]["modes"] != list(range(len(sp["meas"]["modes"]))), lambda sp: "search:gaussian-%s" % sp["meas"]["kind"])
     run_stream(ctx, "layout", gen_layout_case, check_layout, ctx.budget(40, 600), lambda c: any(x[0] == "measure" and x[1] != sorted(x[1]) for x in c["cmds"]), lambda c: "search:layout:n%d" % c["n"])
